@@ -5,6 +5,7 @@ import PsModel.Spec.C04
 Line-protocol front end of the C04 model.
 
     C04 (<legacy|new> (cfg …) (live0 …) (step …))
+    C04 (held <legacy|new> ((k v) …) ((entity sval sval ctx) …))     -- kwargs of runs delayed by state_hold
     cfg  := (func expr (name …) (name …) watch ((k v) …))      -- expr names, any names
     expr := none | E ;  watch := none | (name …) ;  name := (entity part …)
     E    := (eq n lit) | (ne n lit) | (eqn n n) | (isnone n) | (truthy n) | (intgt n k) | (and E E) | (or E E)
@@ -185,8 +186,27 @@ def run (legacy : Bool) (cfgs : List STCfg) (live : Store) (steps : List Step) :
   let spec := sxl [sx "runs", sxl sRuns, sx "evals", sxl sEvals]
   s!"ok (model {model.render}) (spec {spec.render}) (diag {(sxl dg).render})"
 
+/-- one event that started a hold: (entity new old ctx) -/
+def ev? : Sexp → Option Ev
+  | .list [.atom e, n, o, c] => do pure ⟨e, ← sval? n, ← sval? o, ← c.nat?⟩
+  | _ => none
+
+/-- `held`: the keyword arguments of runs delayed by `state_hold` -/
+def runHeld (legacy : Bool) (kw : List (String × String)) (evs : List Ev) : String :=
+  let c : STCfg := ⟨none, [], [], none, kw, 0⟩
+  let m := evs.map (fun ev => sxRun (if legacy then Legacy.heldRun c ev else New.heldRun c ev))
+  let sp := evs.map (fun ev => sxRun (mkRun c ev))
+  s!"ok (model {(sxl (sx "held" :: m)).render}) (spec {(sxl (sx "held" :: sp)).render}) (diag ())"
+
 def handle (x : Sexp) : String :=
   match x with
+  | .list [.atom "held", .atom sub, kw, evs] =>
+    match kvs? kw, Sexp.listOf? ev? evs with
+    | some kw, some evs =>
+      if sub == "legacy" then runHeld true kw evs
+      else if sub == "new" then runHeld false kw evs
+      else "err bad-subsystem"
+    | _, _ => "err parse"
   | .list [.atom sub, cf, lv, st] =>
     match Sexp.listOf? cfg? cf, live? lv, Sexp.listOf? step? st with
     | some cfgs, some live, some steps =>
